@@ -1,7 +1,9 @@
 //! `vh` - conformance harness binding the TLA+ specifications in /verif/spec to the
 //! real code of nerdsane/redis-rust (path dependency on /repo, feature `verif-hooks`).
+mod clock;
 mod crdt;
 mod recov;
+mod repl;
 mod stream;
 mod util;
 mod wal;
@@ -23,6 +25,8 @@ fn main() {
         "wal" => wal::main(rest),
         "stream" => stream::main(rest),
         "recov" => recov::main(rest),
+        "repl" => repl::main(rest),
+        "clock" => clock::main(rest),
         m => {
             eprintln!("unknown module {m}");
             2
